@@ -9,7 +9,48 @@ import (
 )
 
 type Locker = sync.Locker
-type Pool = sync.Pool
+
+// Pool is a drop-in for sync.Pool: a last-in first-out free list, the behaviour of sync.Pool when
+// every user runs on one P and no collection intervenes (the case in which a Put object is certain
+// to be handed out again). Its content never survives an execution, and it is deterministic, which
+// the real pool (per-P caches, cleared by the collector) is not.
+type Pool struct {
+	New func() any
+
+	mu    sync.Mutex
+	epoch uint32
+	items []any
+}
+
+func (p *Pool) Get() any {
+	p.mu.Lock()
+	if ep := vsched.Epoch(); p.epoch != ep {
+		p.epoch, p.items = ep, nil
+	}
+	if n := len(p.items); n > 0 {
+		x := p.items[n-1]
+		p.items = p.items[:n-1]
+		p.mu.Unlock()
+		return x
+	}
+	p.mu.Unlock()
+	if p.New != nil {
+		return p.New()
+	}
+	return nil
+}
+
+func (p *Pool) Put(x any) {
+	if x == nil {
+		return
+	}
+	p.mu.Lock()
+	if ep := vsched.Epoch(); p.epoch != ep {
+		p.epoch, p.items = ep, nil
+	}
+	p.items = append(p.items, x)
+	p.mu.Unlock()
+}
 
 // Mutex is a drop-in for sync.Mutex whose Lock is a scheduling point.
 type Mutex struct {
